@@ -34,19 +34,18 @@ Theorem yaml_type_field_refuted :
 Proof. exact yaml_type_field_refuted_pf. Qed.
 Print Assumptions yaml_type_field_refuted.
 
-(* ---- BibTeXML glue: same, the preamble is not carried.  xml_ok: roles are exactly "author" / "editor",
-   no field has one of these two names, persons are parts_ok *)
+(* ---- BibTeXML glue: same, the preamble is not carried.  xml_ok: roles are author / editor UP TO CASE (as for YAML,
+   as the .bib reader keeps them), no field has one of these two names (up to case), persons are parts_ok.
+   This is the full statement: before the repair afc7628 (finding FC02a, now fixed) the reader tested the role
+   case-sensitively and the theorem held for the exact spellings only, with a refutation witness for "Author". *)
 Theorem xml_glue_roundtrip : forall d, wf_db d -> xml_ok d -> from_tree_xml (to_tree_xml d) = Ok (drop_preamble d).
 Proof. exact xml_glue_roundtrip_pf. Qed.
 Print Assumptions xml_glue_roundtrip.
 
-(* FC02a (finding): with the role spelled Author (as the .bib reader keeps it) the persons are lost.
-   Full statement (false): xml_glue_roundtrip with roles author / editor up to case, as for YAML *)
-Theorem xml_role_case_refuted :
-  exists rd, write_read latex_enc FXml (role_db [65; 117; 116; 104; 111; 114]%N) = Ok rd /\
-             we_persons (hd (mkWE [] [] [] []) (wd_entries rd)) = [] /\ rd <> role_db [65; 117; 116; 104; 111; 114]%N.
-Proof. exact xml_role_case_refuted_pf. Qed.
-Print Assumptions xml_role_case_refuted.
+(* the former witness of FC02a now round-trips (regression) *)
+Theorem xml_role_case : write_read latex_enc FXml (role_db [65; 117; 116; 104; 111; 114]%N) = Ok (role_db [65; 117; 116; 104; 111; 114]%N).
+Proof. exact xml_role_case_fixed_pf. Qed.
+Print Assumptions xml_role_case.
 
 (* F18 (set aside by the property text): each of # % & _ ~ in a field value is re-escaped by the BibTeX
    writer (latexcodec), so the value read back differs *)
@@ -71,8 +70,10 @@ Example ex_lower : lower_db ex_db = Ok (map_ids lower ex_db) /\ map_ids lower ex
 Proof. split; [vm_compute; reflexivity|intro H; discriminate H]. Qed.
 Example ex_yaml : from_tree_yaml (to_tree_yaml ex_db) = Ok (norm_preamble ex_db) /\ wd_preamble (norm_preamble ex_db) = [s2l "preamble"].
 Proof. vm_compute. auto. Qed.
-Example ex_xml : from_tree_xml (to_tree_xml ex_db_lc) = Ok (drop_preamble ex_db_lc).
+Example ex_xml : from_tree_xml (to_tree_xml ex_db_lc) = Ok (drop_preamble ex_db_lc) /\ from_tree_xml (to_tree_xml ex_db) = Ok (drop_preamble ex_db).
 Proof. vm_compute. auto. Qed.
+Example ex_xml_ok_mixed_case : xml_ok ex_db.
+Proof. repeat constructor; cbn; try (intros [H|H]; try discriminate H; try contradiction); try tauto; try discriminate. Qed.
 
 (* ---- Writer.quote against the .bib reader: for a brace-balanced value (nesting <= 100; Proofs/WritersQuote.v
    [balanced]) whatever quote returns -- "v" or {v} -- is read back by parse_value_part as exactly v, consuming
